@@ -153,7 +153,10 @@ def step (d : Src) (banned : List Kind) (st : ASt) (lex : Lexeme) (cur : Nat) : 
   | .contextOpen =>
     match st.cur with
     | none => .error (.noDirective lex.b)
-    | some r => .ok { st with cur := some { r with explicit := true } }
+    | some r =>
+      -- a directive has one context to open: a second "(" has no directive to belong to (F45)
+      if r.explicit then .error (.noDirective lex.b)
+      else .ok { st with cur := some { r with explicit := true } }
   | .contextClose =>
     match flush st with
     | .error e => .error e
